@@ -9,12 +9,54 @@ From RK Require Import Base Iri3986 RdfXml.
 Definition XHV : bytes := s2b "http://www.w3.org/1999/xhtml/vocab#".
 Definition RDFA_USES : bytes := s2b "http://www.w3.org/ns/rdfa#usesVocabulary".
 
-(* the part of the RDFa 1.1 initial context the generator uses *)
+(* https://www.w3.org/2011/rdfa-context/rdfa-1.1: the prefixes of the RDFa 1.1 initial context *)
 Definition initial_prefixes : list (bytes * bytes) :=
-  [(s2b "dc", s2b "http://purl.org/dc/terms/"); (s2b "foaf", s2b "http://xmlns.com/foaf/0.1/");
-   (s2b "schema", s2b "http://schema.org/"); (s2b "xsd", s2b "http://www.w3.org/2001/XMLSchema#");
-   (s2b "rdf", RDFNS); (s2b "rdfs", s2b "http://www.w3.org/2000/01/rdf-schema#");
-   (s2b "owl", s2b "http://www.w3.org/2002/07/owl#"); (s2b "rdfa", s2b "http://www.w3.org/ns/rdfa#")].
+  [(s2b "as", s2b "https://www.w3.org/ns/activitystreams#");
+   (s2b "csvw", s2b "http://www.w3.org/ns/csvw#");
+   (s2b "dcat", s2b "http://www.w3.org/ns/dcat#");
+   (s2b "dqv", s2b "http://www.w3.org/ns/dqv#");
+   (s2b "duv", s2b "https://www.w3.org/ns/duv#");
+   (s2b "grddl", s2b "http://www.w3.org/2003/g/data-view#");
+   (s2b "jsonld", s2b "http://www.w3.org/ns/json-ld#");
+   (s2b "ldp", s2b "http://www.w3.org/ns/ldp#");
+   (s2b "ma", s2b "http://www.w3.org/ns/ma-ont#");
+   (s2b "oa", s2b "http://www.w3.org/ns/oa#");
+   (s2b "odrl", s2b "http://www.w3.org/ns/odrl/2/");
+   (s2b "org", s2b "http://www.w3.org/ns/org#");
+   (s2b "owl", s2b "http://www.w3.org/2002/07/owl#");
+   (s2b "prov", s2b "http://www.w3.org/ns/prov#");
+   (s2b "qb", s2b "http://purl.org/linked-data/cube#");
+   (s2b "rdf", s2b "http://www.w3.org/1999/02/22-rdf-syntax-ns#");
+   (s2b "rdfa", s2b "http://www.w3.org/ns/rdfa#");
+   (s2b "rdfs", s2b "http://www.w3.org/2000/01/rdf-schema#");
+   (s2b "rif", s2b "http://www.w3.org/2007/rif#");
+   (s2b "rr", s2b "http://www.w3.org/ns/r2rml#");
+   (s2b "sd", s2b "http://www.w3.org/ns/sparql-service-description#");
+   (s2b "skos", s2b "http://www.w3.org/2004/02/skos/core#");
+   (s2b "skosxl", s2b "http://www.w3.org/2008/05/skos-xl#");
+   (s2b "ssn", s2b "http://www.w3.org/ns/ssn/");
+   (s2b "sosa", s2b "http://www.w3.org/ns/sosa/");
+   (s2b "time", s2b "http://www.w3.org/2006/time#");
+   (s2b "void", s2b "http://rdfs.org/ns/void#");
+   (s2b "wdr", s2b "http://www.w3.org/2007/05/powder#");
+   (s2b "wdrs", s2b "http://www.w3.org/2007/05/powder-s#");
+   (s2b "xhv", s2b "http://www.w3.org/1999/xhtml/vocab#");
+   (s2b "xml", s2b "http://www.w3.org/XML/1998/namespace");
+   (s2b "xsd", s2b "http://www.w3.org/2001/XMLSchema#");
+   (s2b "cc", s2b "http://creativecommons.org/ns#");
+   (s2b "ctag", s2b "http://commontag.org/ns#");
+   (s2b "dc", s2b "http://purl.org/dc/terms/");
+   (s2b "dcterms", s2b "http://purl.org/dc/terms/");
+   (s2b "dc11", s2b "http://purl.org/dc/elements/1.1/");
+   (s2b "foaf", s2b "http://xmlns.com/foaf/0.1/");
+   (s2b "gr", s2b "http://purl.org/goodrelations/v1#");
+   (s2b "ical", s2b "http://www.w3.org/2002/12/cal/icaltzd#");
+   (s2b "og", s2b "http://ogp.me/ns#");
+   (s2b "rev", s2b "http://purl.org/stuff/rev#");
+   (s2b "sioc", s2b "http://rdfs.org/sioc/ns#");
+   (s2b "v", s2b "http://rdf.data-vocabulary.org/#");
+   (s2b "vcard", s2b "http://www.w3.org/2006/vcard/ns#");
+   (s2b "schema", s2b "http://schema.org/")].
 Definition initial_terms : list (bytes * bytes) :=
   [(s2b "describedby", s2b "http://www.w3.org/2007/05/powder-s#describedby");
    (s2b "license", XHV ++ s2b "license"); (s2b "role", XHV ++ s2b "role")].
@@ -294,13 +336,14 @@ Fixpoint element (fuel : nat) (root : bool) (c : rctx) (n : xnode) (st : rst) : 
             | Some pv =>
                 let txt := text_content (S f) n in
                 let value : option rterm :=
-                  match at_ "datatype"%string with
-                  | Some ((_ :: _) as dv) =>
-                      match term_curie_absiri c1 dv with
-                      | Some (RI dt) => Some (RL (match at_ "content"%string with Some cv => cv | None => txt end) dt [])
-                      | _ => None
-                      end
-                  | Some [] => Some (plain lang (match at_ "content"%string with Some cv => cv | None => txt end))
+                  (* a @datatype which does not resolve to an IRI is ignored (rdfa.info test 0197) *)
+                  match (match at_ "datatype"%string with
+                         | Some ((_ :: _) as dv) => match term_curie_absiri c1 dv with Some (RI dt) => Some (Some dt) | _ => None end
+                         | Some [] => Some None
+                         | None => None
+                         end) with
+                  | Some (Some dt) => Some (RL (match at_ "content"%string with Some cv => cv | None => txt end) dt [])
+                  | Some None => Some (plain lang (match at_ "content"%string with Some cv => cv | None => txt end))
                   | None =>
                       match at_ "content"%string with
                       | Some cv => Some (plain lang cv)
